@@ -1,7 +1,8 @@
 (* Policies/Cases.v -- evaluation of the model (X) and of the decidable specification (S) on the
    cases the harness observed on the real code.  No proofs here.
    Row format: [id; model_agrees; spec_holds; nontrivial; branch_tag] ++ details
-     vs cases:  details = per scope [must_fail; closed; reaches_pass; model_err; obs_err; flags_agree]
+     vs cases:  details = per scope [must_fail; unshadowed_must_fail; first shadowed kind code or 0; closed;
+                                     reaches_pass; model_err; obs_err; flags_agree]
                 followed by [tls_required; tls_rejects; tls_agree]
                 branch_tag = number of scopes whose model view is an error return
    The rendered file is handed over already parsed ([parsed] = Lex.Parser.parse_conf of the real
@@ -23,24 +24,6 @@ Fixpoint slash_to_dash (s : string) : string :=
   end.
 
 Definition path_of (key : string) : string := String.append "/etc/nginx/secrets/" (slash_to_dash key).
-
-(* the scopes of a VirtualServer in generation order, with the references that apply *)
-Definition own_route_scopes (v : vserver) : list (string * context * string * list polref) :=
-  flat_map (fun r => if is_empty (r_vsr r)
-                     then [(String.append "route:" (r_path r), CRoute, vs_ns v, r_pols r)] else []) (vs_routes v).
-
-Definition sub_scopes (v : vserver) : list (string * context * string * list polref) :=
-  flat_map (fun x =>
-    let key := nskey (v_ns x) (v_name x) in
-    map (fun s =>
-           let id := String.append "sub:" (String.append key (String.append ":" (s_path s))) in
-           match s_pols s with
-           | [] => (id, CRoute, vs_ns v, inherited_refs (vs_ns v) (vs_routes v) key [])
-           | _ => (id, CSubroute, v_ns x, s_pols s)
-           end) (v_subs x)) (vs_vsrs v).
-
-Definition vs_scopes (v : vserver) : list (string * context * string * list polref) :=
-  ("spec", CSpec, vs_ns v, vs_pols v) :: own_route_scopes v ++ sub_scopes v.
 
 (* flags of a view in the order the harness reports them *)
 Definition flags_of (a : acc) (server : bool) (final_oidc : bool) : list string :=
@@ -64,7 +47,10 @@ Fixpoint zip_scopes (http : list directive) (host : string) (cls : string) (clus
         | None => None
         | Some rest =>
             let server := match entry with [] => true | _ => false end in
+            let sr := scan_refs cls cluster d ctx owner [] refs in
             Some ([b2z (scope_must_fail cls cluster d ctx owner refs);
+                   b2z (fst sr);
+                   Z.of_nat (match snd sr with k :: _ => kind_code k | [] => 0 end);
                    b2z (scope_fails_closed http host entry);
                    b2z (scope_reaches_pass http host entry);
                    b2z (lv_err vw); b2z oerr;
@@ -112,17 +98,17 @@ Definition vs_case (id : Z) (cls : string) (cluster : list (string * cpolicy))
       match zip_scopes http host cls cluster d final_oidc (vs_scopes v) views obs with
       | None => [id; 0; b2z tls_s; 0; (-2)]%Z
       | Some rows =>
-          (* a row: [must; closed; reaches; model_err; obs_err; flags_agree] *)
+          (* a row: [must; must_unshadowed; shadow_kind; closed; reaches; model_err; obs_err; flags_agree] *)
           let agree := forallb (fun r => match r with
-                                         | [_; _; _; me; oe; fa] => Z.eqb me oe && Z.eqb fa 1
+                                         | [_; _; _; _; _; me; oe; fa] => Z.eqb me oe && Z.eqb fa 1
                                          | _ => false end) rows && tls_agree in
           (* S: a scope that must fail is closed; a scope the implementation left open really
              reaches the upstream (so that closed is not vacuous) is reported through nontrivial *)
           let spec := forallb (fun r => match r with
-                                        | [must; closed; _; _; _; _] => negb (Z.eqb must 1) || Z.eqb closed 1
+                                        | [must; _; _; closed; _; _; _; _] => negb (Z.eqb must 1) || Z.eqb closed 1
                                         | _ => false end) rows && tls_s in
-          let nerr := List.length (filter (fun r => match r with [_; _; _; me; _; _] => Z.eqb me 1 | _ => false end) rows) in
-          let nontrivial := existsb (fun r => match r with [must; _; _; _; _; _] => Z.eqb must 1 | _ => false end) rows || tls_req in
+          let nerr := List.length (filter (fun r => match r with [_; _; _; _; _; me; _; _] => Z.eqb me 1 | _ => false end) rows) in
+          let nontrivial := existsb (fun r => match r with [must; _; _; _; _; _; _; _] => Z.eqb must 1 | _ => false end) rows || tls_req in
           [id; b2z agree; b2z spec; b2z nontrivial; Z.of_nat nerr] ++ List.concat rows ++ [b2z tls_req; b2z tls_rej; b2z tls_agree]
       end
   end%Z.
